@@ -1,5 +1,6 @@
 """Shared generator (recipe -> sound queue program) and history oracles for the queue
 properties (C01-C06, C10, C17, C18). Soundness rules: DESIGN section 5 (S1, S2)."""
+import os
 from hypothesis import strategies as st
 import numpy as np
 from driver import e3
@@ -44,6 +45,8 @@ def perturbation_cfg(P, h, kind, cpu, eintr=True):
         cfg["strat"] = 0
         cfg["p"] = [2, 10, 50, 150][h[1] % 4]
         cfg["hyield"] = [0, 20, 100][h[4] % 3]
+    if os.environ.get("VERIF_FORCE_MODE") and kind == "F1":      # triage aid: run the single-CPU workers as pinned CFS (mode 2) instead of SCHED_FIFO
+        cfg["mode"] = int(os.environ["VERIF_FORCE_MODE"])
     P.cfg_active_cpus = [1, 2, 4, 16][h[7] % 4]
     # EINTR injection (dvm executor): client threads are interrupted by a handled, non-SA_RESTART signal every <sigint> us
     si = [0, 0, 0, 0, 150, 600, 2500][(h[7] >> 2) % 7]
